@@ -48,6 +48,7 @@ def gen_probe():
         # "for all seeds": also integers beyond 32 bits and negative ones (clock-based seeds)
         sp["seed"] = draw(st.one_of(st.integers(0, 2**20), st.integers(0, 2**20), st.integers(2**32, 2**32 + 2**20), st.integers(-2**20, -1)))
         sp["chains"] = draw(st.sampled_from([1, 2, 2, 3, 3, 4]))
+        sp["recycle"] = draw(st.booleans())
         kkeys = [k for kk in sp["kernels"] for k in kk["keys"]]
         sp["as_key"] = draw(st.booleans())
         sp["multi"] = draw(st.booleans())
@@ -84,7 +85,12 @@ def build(spec, seed_as_key=None, perturb=None, seed=None, second_build=False):
     if spec["multi"]:
         b.set_initial_values(states, multiple_chains=True)
     else:
-        b.set_initial_values(jax.tree_util.tree_map(lambda x: x[0], states))
+        single = jax.tree_util.tree_map(lambda x: x[0], states)
+        b.set_initial_values(single)
+        if spec.get("recycle") and isinstance(single, dict):
+            # the caller re-uses its container for something else before build(): the values supplied above must still be the ones used
+            for kk in list(single):
+                single[kk] = jnp.asarray(single[kk]) + 17
     for k in el.make_kernels(spec, []):
         b.add_kernel(k)
     b.positions_included = list(spec["included"])
